@@ -1,6 +1,7 @@
 // Correspondence harness for C13: calls IntNumTheoDom / IntSqrtModDom and the number-theoretic
 // free functions of gmp++ in-process and prints `key args… = results…` (hex).
-//   h_numtheo <tier> <seed>     generates its own structured cases (every random choice from the seed)
+//   h_numtheo <tier> <seed> [group]  generates its own structured cases (every random choice from the seed)
+//   every case runs under a watchdog (C13_CASE_TIMEOUT seconds, default 10): a hang is reported as `… = TIMEOUT`
 //   h_numtheo … < lines         runs exactly the given `key args…` lines (replay)
 #include "proto.h"
 #include <gmp++/gmp++.h>
@@ -10,6 +11,10 @@
 #include <algorithm>
 #include <list>
 #include <set>
+#include <fstream>
+#include <cstring>
+#include <signal.h>
+#include <unistd.h>
 
 using namespace Givaro;
 
@@ -87,6 +92,8 @@ static void run_case(const std::vector<std::string>& tok) {
         else if (k == "sosqmc") { Integer x, y; SQ->sumofsquaresmodprimeMonteCarlo(x, y, Z(0), Z(1)); add(H(x)); add(H(y)); }
         else if (k == "sosqnoerh") { Integer x, y; SQ->sumofsquaresmodprimeNoERH(x, y, Z(0), Z(1)); add(H(x)); add(H(y)); }
         else if (k == "sosqnr") { Integer x, y; SQ->sumofsquaresmodprimewithnonresidue(x, y, Z(0), Z(1), Z(2)); add(H(x)); add(H(y)); }
+        else if (k == "selftest_hang") { for (;;) pause(); }      // watchdog self-test (never generated)
+        else if (k == "selftest_abort") { abort(); }
         else out = "NOFUNC";
     } catch (...) {
         out = "EXC";
@@ -171,6 +178,9 @@ static void gen_numtheo(Gen& g) {
         }
     }
     C({"phi", "0"}); C({"phi", "-5"});
+    // prim_root where the candidate found modulo p is NOT a primitive root modulo p^2 (5 modulo 40487, 14-free small cases do not exist
+    // below 4096): exercises the `A += p` correction and the 2p^k adjustment; judged by the criterion of is_prim_root_iff
+    for (const char* nn : {"61b429f1", "c36853e2"}) C({"primroot", nn});      // 40487^2, 2*40487^2
     // --- order / is_prim_root / isorder
     for (uint64_t n = 2; n <= N; ++n) {
         if (!T && n > 768 && g.rng.below(4) != 0) continue;
@@ -467,26 +477,84 @@ static void gen_sqrt(Gen& g) {
     }
 }
 
+// ------------------------------------------------------------------------------------------ per-case watchdog
+// A case that does not return within WD_SECS seconds is reported as `key args… = TIMEOUT` and the harness re-executes
+// itself to go on with the next case (the cases are regenerated from the seed, or re-read from the replay file).
+static char WD_LINE[1 << 16];
+static size_t WD_LEN = 0;
+static char WD_SKIP[32];
+static char* WD_ARGV[12];
+static void on_alarm(int sig) {
+    if (sig != SIGALRM && WD_LEN > 9) memcpy(WD_LINE + WD_LEN - 8, "CRASH  \n", 8);   // abort()/SIGFPE inside the library: same treatment
+    ssize_t r = write(1, WD_LINE, WD_LEN); (void)r;
+    execv("/proc/self/exe", WD_ARGV);
+    _exit(3);
+}
+
 int main(int argc, char** argv) {
-    uint64_t seed = argc > 2 ? strtoull(argv[2], nullptr, 10) : 1;
-    bool thorough = argc > 1 && std::string(argv[1]) == "thorough";
+    // positional: tier seed [group|all] ; options: --skip N  --file PATH
+    std::string tier = argc > 1 ? argv[1] : "quick", seeds = argc > 2 ? argv[2] : "1", only = "all", file;
+    size_t skip = 0;
+    int pos = 0;
+    for (int i = 1; i < argc; ++i) {
+        std::string t = argv[i];
+        if (t == "--skip" && i + 1 < argc) skip = strtoull(argv[++i], nullptr, 10);
+        else if (t == "--file" && i + 1 < argc) file = argv[++i];
+        else { ++pos; if (pos == 3) only = t; }
+    }
+    uint64_t seed = strtoull(seeds.c_str(), nullptr, 10);
+    bool thorough = tier == "thorough";
+    unsigned wd_secs = getenv("C13_CASE_TIMEOUT") ? (unsigned)atoi(getenv("C13_CASE_TIMEOUT")) : 10;
+    {   // SIGALRM stays blocked across the execv done from the handler: unblock it
+        sigset_t m; sigemptyset(&m); sigaddset(&m, SIGALRM); sigaddset(&m, SIGABRT); sigaddset(&m, SIGFPE); sigprocmask(SIG_UNBLOCK, &m, nullptr);
+        struct sigaction sa; memset(&sa, 0, sizeof sa); sa.sa_handler = on_alarm;
+        sigaction(SIGALRM, &sa, nullptr); sigaction(SIGABRT, &sa, nullptr); sigaction(SIGFPE, &sa, nullptr);
+    }
     Integer::seeding((uint64_t)(seed * 7919 + 13));
     IntNumTheoDom<> nt(GivRandom(seed * 2 + 101));
     IntSqrtModDom<> sq(GivRandom(seed * 2 + 103));
     NT = &nt; SQ = &sq;
 
-    // replay mode: lines on stdin
-    vp::Args a;
-    bool any = false;
-    while (vp::read_line(std::cin, a)) { any = true; run_case(a.tok); }
-    if (any) return 0;
-
-    Gen g(seed, thorough);
-    std::string only = argc > 3 ? argv[3] : "";
-    if (only.empty() || only == "numtheo") gen_numtheo(g);
-    if (only.empty() || only == "symbols") gen_symbols(g);
-    if (only.empty() || only == "roots") gen_roots(g);
-    if (only.empty() || only == "sqrt") gen_sqrt(g);
-    for (auto& c : CASES) run_case(c);
+    bool own_file = false;
+    if (!file.empty()) {                       // resumed replay
+        std::ifstream in(file);
+        vp::Args a;
+        while (vp::read_line(in, a)) CASES.push_back(a.tok);
+    } else {
+        // replay mode: lines on stdin
+        vp::Args a;
+        while (vp::read_line(std::cin, a)) CASES.push_back(a.tok);
+        if (!CASES.empty()) {
+            file = "/tmp/h_numtheo_" + std::to_string((long)getpid()) + ".lines";
+            std::ofstream out(file);
+            for (auto& c : CASES) { for (size_t i = 0; i < c.size(); ++i) out << (i ? " " : "") << c[i]; out << "\n"; }
+            own_file = true;
+        }
+    }
+    if (CASES.empty()) {
+        Gen g(seed, thorough);
+        if (only == "all" || only == "numtheo") gen_numtheo(g);
+        if (only == "all" || only == "symbols") gen_symbols(g);
+        if (only == "all" || only == "roots") gen_roots(g);
+        if (only == "all" || only == "sqrt") gen_sqrt(g);
+    }
+    static std::string a0 = argv[0], a_tier = tier, a_seed = seeds, a_only = only, a_file = file;
+    int n = 0;
+    WD_ARGV[n++] = (char*)a0.c_str(); WD_ARGV[n++] = (char*)a_tier.c_str(); WD_ARGV[n++] = (char*)a_seed.c_str();
+    WD_ARGV[n++] = (char*)a_only.c_str(); WD_ARGV[n++] = (char*)"--skip"; WD_ARGV[n++] = WD_SKIP;
+    if (!a_file.empty()) { WD_ARGV[n++] = (char*)"--file"; WD_ARGV[n++] = (char*)a_file.c_str(); }
+    WD_ARGV[n] = nullptr;
+    for (size_t i = skip; i < CASES.size(); ++i) {
+        std::string l;
+        for (size_t j = 0; j < CASES[i].size(); ++j) { if (j) l += ' '; l += CASES[i][j]; }
+        l += " = TIMEOUT\n";
+        WD_LEN = std::min(l.size(), sizeof WD_LINE);
+        memcpy(WD_LINE, l.data(), WD_LEN);
+        snprintf(WD_SKIP, sizeof WD_SKIP, "%zu", i + 1);
+        alarm(wd_secs);
+        run_case(CASES[i]);
+        alarm(0);
+    }
+    if (!file.empty() && (own_file || skip > 0)) unlink(file.c_str());
     return 0;
 }
